@@ -206,6 +206,27 @@ fn commit_classified(
     }
 }
 
+/// Abstract form of [`descent_stack`]: the portal slots (root → … → `w`) a rewrite inside `w` is
+/// reached through, which the engine adds to its read set.
+pub fn descent_slots(pre: &RefState, w: W) -> Vec<world::RefSlot> {
+    let mut chain = Vec::new();
+    let mut cur = w;
+    let mut guard = 0;
+    while let Some(inst) = pre.instances.get(&cur) {
+        let Some(slot) = inst.parent else { break };
+        chain.push(slot);
+        cur = match slot {
+            world::RefSlot::Node(pw, _) | world::RefSlot::Edge(pw, _) => pw,
+        };
+        guard += 1;
+        if guard > 8 {
+            break;
+        }
+    }
+    chain.reverse();
+    chain
+}
+
 /// The chain of portal slots from the root instance down to `w` (root → … → w), as the engine's
 /// `descent_stack` argument expects.
 pub fn descent_stack(pre: &RefState, w: W) -> Vec<warp_core::AttachmentKey> {
